@@ -25,28 +25,45 @@ type StabInj struct {
 	AsSel    int     `json:"as_sel"`
 }
 
+// Reactive makes the Byzantine members answer, inside the timely suffix, every proposal a correct leader makes at the deciding
+// height straight away (before the correct members' own answers are delivered): PREPARE + COMMIT (or COMMIT only) for it, sent
+// to the members in To only - a selective helper, whose help the other members do not get.
+type Reactive struct {
+	CommitsOnly bool   `json:"commits_only,omitempty"`
+	To          uint16 `json:"to"`
+}
+
 type LiveCase struct {
 	Cfg    Config    `json:"cfg"`
 	Prefix []Action  `json:"prefix"`
 	R      []int     `json:"r"`   // per identity: remaining time as a fraction r/1000 of the node's full timeout
 	Inj    []StabInj `json:"inj"` // Byzantine injections during the stable suffix
+	// The property fixes no order among the messages of the timely suffix, only that all of them arrive before a timer fires:
+	// Order picks the k-th oldest deliverable message instead of the oldest (one entry per delivery, then FIFO), Defer lists
+	// messages that are delivered only when nothing else is pending (still before any timer).
+	Order []int      `json:"order,omitempty"`
+	Defer []HoldRule `json:"defer,omitempty"`
+	React *Reactive  `json:"react,omitempty"`
 	// Disabled lists triggers excluded because of open known findings (set by the search, never by a replay file)
 	Disabled []string `json:"-"`
 }
 
 type LiveResult struct {
-	Discarded  string // precondition failed (why); "" otherwise
-	H          uint64
-	D          []int
-	Vmin, Vmax uint64
-	Bound      int
-	Firings    int
-	Committed  bool
-	CommitView uint64
-	LeaderInD  bool
-	NonTrivial bool
-	Injected   int
-	NoTimer    int // deciders that had no armed election timer at the stabilisation point
+	Discarded      string // precondition failed (why); "" otherwise
+	H              uint64
+	D              []int
+	Vmin, Vmax     uint64
+	Bound          int
+	Firings        int
+	Committed      bool
+	CommitView     uint64
+	LeaderInD      bool
+	NonTrivial     bool
+	Injected       int
+	NoTimer        int  // deciders that had no armed election timer at the stabilisation point
+	JoinedByQuorum bool // the committing view was proposed inside the suffix by a decider and accepted by deciders of quorum weight (second clause judged)
+	Reordered      int  // deliveries of the suffix that were not the oldest pending message
+	Reacted        int  // proposals of correct leaders the Byzantine members answered selectively inside the suffix
 }
 
 func satShl(base uint64, v uint64) uint64 {
@@ -69,6 +86,16 @@ func RunLive(c LiveCase) (*World, LiveResult) {
 		w.Apply(a)
 	}
 	var res LiveResult
+	if w.Viol != nil {
+		return w, res
+	}
+	// events of the prefix that were split in two (main-loop half done, worker half still queued) are completed first: a queued
+	// node sync is the host's doing, not a message among the deciders, and must not take a decider away inside the suffix
+	for _, n := range w.Nodes {
+		for k := 0; n != nil && !n.Crashed && (n.pendingTrig != nil || n.pendingSync != nil) && k < 64; k++ {
+			w.runPending(n)
+		}
+	}
 	if w.Viol != nil {
 		return w, res
 	}
@@ -130,7 +157,7 @@ func RunLive(c LiveCase) (*World, LiveResult) {
 		return w, res
 	}
 	res.Bound = len(res.D) * (int(res.Vmax-res.Vmin) + 2*cfg.N + 4)
-	res.NonTrivial = res.Vmin != res.Vmax || prepared || len(c.Inj) > 0
+	res.NonTrivial = res.Vmin != res.Vmax || prepared || len(c.Inj) > 0 || len(c.Order) > 0 || len(c.Defer) > 0 || c.React != nil
 
 	seenAtStab := len(w.Seen)
 	// virtual clock
@@ -175,23 +202,64 @@ func RunLive(c LiveCase) (*World, LiveResult) {
 		}
 		return false
 	}
+	orderPos, seenCursor := 0, len(w.Seen)
+	react := func() {
+		for ; seenCursor < len(w.Seen); seenCursor++ {
+			s := w.Seen[seenCursor]
+			if c.React == nil || len(cfg.Byz) == 0 || s.Meta.H != h || (s.Meta.Union != UPP && s.Meta.Union != UNV) || !w.IsCorrect(s.From) {
+				continue
+			}
+			p1 := 0
+			if c.React.CommitsOnly {
+				p1 = 1
+			}
+			sp := ByzSpec{Strat: "follow", H: h, V: s.Meta.V, As: cfg.Byz[0], To: c.React.To, P: []int{0, p1}}
+			w.Trace = append(w.Trace, Action{K: "byz", Byz: &sp})
+			w.Adv.Do(&sp)
+			res.Reacted++
+		}
+	}
+	deferred := func(m *Msg) bool {
+		for _, r := range c.Defer {
+			if r.matches(m) {
+				return true
+			}
+		}
+		return false
+	}
 	deliverAll := func() {
 		for guard := 0; guard < 100000 && w.Viol == nil; guard++ {
-			var m *Msg
-			idx := -1
+			var now, later []int
 			for k, x := range w.Pool {
-				if inD[x.To] {
-					m, idx = x, k
-					break
+				if !inD[x.To] {
+					continue
+				}
+				if deferred(x) {
+					later = append(later, k)
+				} else {
+					now = append(now, k)
 				}
 			}
-			if m == nil {
+			if len(now) == 0 {
+				now = later
+			}
+			if len(now) == 0 {
 				return
 			}
+			idx := now[0]
+			if orderPos < len(c.Order) {
+				if k := c.Order[orderPos]; k > 0 {
+					idx = now[k%len(now)]
+					res.Reordered++
+				}
+				orderPos++
+			}
+			m := w.Pool[idx]
 			w.remove(idx)
 			w.Trace = append(w.Trace, Action{K: "deliver", ID: m.ID})
 			w.deliver(m)
 			rearm()
+			react()
 		}
 	}
 	inject := func(firing int) {
@@ -297,14 +365,40 @@ func RunLive(c LiveCase) (*World, LiveResult) {
 	if !proposedAfter || !res.LeaderInD {
 		return w, res
 	}
-	for _, i := range res.D {
-		n := w.Nodes[i]
-		stored := false
+	// ... and about a view that correct members of quorum weight joined: the members that accepted its proposal must hold
+	// quorum weight among themselves (a member that commits with the selective help of Byzantine members, in a view most
+	// correct members never entered, leaves the others below quorum - the property promises nothing about that view)
+	accepted := func(n *Node) bool {
 		for _, e := range n.Sto.Log {
 			if e.Kind == "PP" && e.Stored && uint64(e.H) == h && uint64(e.V) == cv && e.Hash == chash {
-				stored = true
+				return true
 			}
 		}
+		return false
+	}
+	// (a member that accepted the proposal and was then drawn into a higher view - by votes left over from the asynchronous
+	// prefix or sent by Byzantine members, never by a timer here - has left that view and no longer counts as part of it)
+	stayed := func(n *Node) bool {
+		for _, cm := range n.Commits {
+			if cm.H == h {
+				return true
+			}
+		}
+		return n.H() == h && n.V() == cv
+	}
+	var acc []primitives.MemberId
+	for _, i := range res.D {
+		if accepted(w.Nodes[i]) && stayed(w.Nodes[i]) {
+			acc = append(acc, w.IDs[i])
+		}
+	}
+	if !ref.IsQuorum(acc, com) {
+		return w, res
+	}
+	res.JoinedByQuorum = true
+	for _, i := range res.D {
+		n := w.Nodes[i]
+		stored := accepted(n) && stayed(n)
 		done := false
 		for _, cm := range n.Commits {
 			if cm.H == h {
